@@ -26,7 +26,7 @@ NOT_APPLICABLE = {
 PROPS = {
     'C02': {
         'scans': ['vocoder_no_hidden_state'],
-        'technique': 'Verus contracts on the extracted text of SpeechGenerator::{new,generate_step,generate_all,synthesized_frames}; history induction as proof fns over those postconditions',
+        'technique': 'Verus contracts on the extracted text of SpeechGenerator::{new,generate_step,generate_all,synthesized_frames}; history induction as proof fns over those postconditions; the sample-writing statement of synthesize cut from its text (K-sample: the previous buffer content never reaches the sample)',
         'level_text': 'unbounded deductive proof (Verus/z3) that any history of steps plus finish concatenates to the one-shot waveform, for every frame count, buffer size and cursor position, relative to an abstract deterministic vocoder',
         'level_note': 'assumes the abstract vocoder contract (deterministic function of its state and arguments, writes exactly rawdata[0..fperiod]); frames*fperiod fits usize; rewrites R1,R2,R3,R5,R10',
         'verus': ['speech', 'vocoder'],
@@ -167,7 +167,7 @@ PROPS = {
         'not_decided': ['impulse-response energy preserved within 1% (truncation to 576 taps, rounding)'],
     },
     'C16': {
-        'technique': 'Kani frame harness on Condition::set_volume (exp stubbed as an uninterpreted function) + Verus contract on Engine::generator; documented constant values (K-const: DB = ln10/20 within 2 ulp)',
+        'technique': 'Kani frame harness on Condition::set_volume (exp stubbed as an uninterpreted function) + Verus contract on Engine::generator; documented constant values (K-const: DB = ln10/20 within 2 ulp); the sample-writing statement of synthesize cut from its text (K-sample: all filter outputs and buffer contents at four volumes)',
         'level_text': 'complete frame proof: set_volume writes the volume field only; unbounded proof that condition.volume reaches Vocoder::new\'s volume argument and nothing else in the pipeline',
         'level_note': 'PARTIAL: the dB round trip ln(exp(x)) ~ x is NOT decided (libm); Verus states volume == exp(v*DB), get_volume == ln(volume)/DB, and (unit vocoder) that every sample written by Vocoder::synthesize is some filter output times the stored volume, with exp/ln/IEEE ops uninterpreted',
         'verus': ['engine', 'cond', 'vocoder'],
